@@ -21,7 +21,7 @@ def _cases(draw, max_size=9):
     extra = draw(st.lists(st.floats(min_value=0.0, max_value=1.0), min_size=2, max_size=6))
     lims = sorted(draw(st.lists(st.floats(min_value=0.0, max_value=1.0), min_size=2, max_size=2)))
     return dict(s=s, k=k, m=m, repeated=draw(st.booleans()), gap=draw(st.sampled_from([1.0, 0.5, 10.0])),
-                extra=extra, lims=lims, virtual_first=draw(st.booleans()),
+                extra=extra, lims=lims, virtual_first=draw(st.booleans()), via_labels=draw(st.booleans()),
                 thr_extra=draw(st.lists(st.floats(min_value=0.0, max_value=1.0), max_size=3)))
 
 
@@ -63,8 +63,14 @@ def check(case):
             mp, mn = pos + above[:k], neg + below[:m]
         else:
             mp, mn = pos + below[:k], neg + above[:m]
-        V = Scores(np.asarray(pos, dtype=dt), np.asarray(neg, dtype=dt), nb_easy_pos=k,
-                   nb_easy_neg=m, score_class=sc, equal_class=ec)
+        if case.get("via_labels"):
+            # the documented alternative constructor
+            lab = np.asarray([1] * len(pos) + [0] * len(neg))
+            V = Scores.from_labels(lab, np.asarray(pos + neg, dtype=dt), pos_label=1, nb_easy_pos=k,
+                                   nb_easy_neg=m, score_class=sc, equal_class=ec)
+        else:
+            V = Scores(np.asarray(pos, dtype=dt), np.asarray(neg, dtype=dt), nb_easy_pos=k,
+                       nb_easy_neg=m, score_class=sc, equal_class=ec)
         M = Scores(np.asarray(mp, dtype=dt), np.asarray(mn, dtype=dt), score_class=sc, equal_class=ec)
         cv, cmm = V.cm(thr).matrix, M.cm(thr).matrix
         if not np.array_equal(cv, cmm):
@@ -103,6 +109,49 @@ def check(case):
     return dict(nontrivial=(k + m > 0) and eligible_total > 0, labels=labels)
 
 
+# ------------------------------------------------------------------ a few easy samples next to very many scores
+def _large_cases(tier):
+    sizes = [(300_000, 300_000, 2, 3), (150_001, 40, 1, 0)] if tier == "quick" else \
+        [(300_000, 300_000, 2, 3), (150_001, 40, 1, 0), (40, 500_000, 0, 1), (1_000_000, 20, 5, 5)]
+    for n, m, k, e in sizes:
+        yield dict(n=n, m=m, k=k, e=e)
+
+
+def check_large(case):
+    from score_analysis import Scores
+
+    n, m, k, e = case["n"], case["m"], case["k"], case["e"]
+    pos = 0.5 + 2.0 * np.arange(n)
+    neg = 1.25 + 2.0 * np.arange(m) - (m - n)
+    lo, hi = min(pos[0], neg[0]), max(pos[-1], neg[-1])
+    T = n + m + k + e
+    for sc, ec in CONFIGS:
+        above = hi + 10.0 + np.arange(max(k, e))
+        below = lo - 10.0 - np.arange(max(k, e))
+        mp = np.concatenate([pos, above[:k] if sc == "pos" else below[:k]])
+        mn = np.concatenate([neg, below[:e] if sc == "pos" else above[:e]])
+        V = Scores(pos, neg, nb_easy_pos=k, nb_easy_neg=e, score_class=sc, equal_class=ec, is_sorted=True)
+        M = Scores(mp, mn, score_class=sc, equal_class=ec)
+        thr = np.concatenate([pos[:3], neg[-3:], [lo - 5.0, hi + 5.0, (lo + hi) / 2]])
+        require(np.array_equal(V.cm(thr).matrix, M.cm(thr).matrix), "easy:cm", f"n={n} m={m} k={k} e={e} {sc}/{ec}")
+        for mt in METRICS:
+            rel = relevant_scores(mt, [pos[0], pos[-1]], [neg[0], neg[-1]])
+            rmin, rmax = min(rel), max(rel)
+            Nm = {"tpr": n + k, "fnr": n + k, "tnr": m + e, "fpr": m + e}.get(mt, T)
+            targets = np.asarray(sorted(set([j / Nm for j in (1, 2, 3, 7, 100, Nm // 3, Nm // 2, Nm - 100, Nm - 7,
+                                                             Nm - 3, Nm - 2, Nm - 1)] + [0.25, 0.5, 0.9])))
+            tm = np.asarray(getattr(M, "threshold_at_" + mt)(targets), dtype=float)
+            tv = np.asarray(getattr(V, "threshold_at_" + mt)(targets), dtype=float)
+            ok = (tm >= rmin) & (tm <= rmax)
+            if ok.any():
+                err = np.abs(tm[ok] - tv[ok])
+                j = int(np.argmax(err))
+                require(float(err[j]) <= 1e-9 * (hi - lo), "easy:threshold",
+                        lambda: f"n={n} m={m} k={k} e={e} config={sc}/{ec}: threshold_at_{mt}({targets[ok][j]!r}) "
+                                f"virtual {tv[ok][j]!r} materialised {tm[ok][j]!r}")
+    return dict(nontrivial=k + e > 0, labels=["large-n"])
+
+
 PROP = Prop(
     id="C09",
     rule=("Hypothesis: score sets with both classes non-empty (ties, int-valued, tie-free), k,m in "
@@ -114,7 +163,9 @@ PROP = Prop(
           "target on the whole grid j/T plus random ones whose materialised threshold lies within "
           "[min,max] of the relevant scored samples gives the same threshold (1e-9*range). "
           "Non-trivial = k+m>0 and at least one eligible target."),
-    clauses=[Clause("virtual_vs_materialised", check, strategy=lambda tier: _cases(9 if tier == "quick" else 25), quick=300, thorough=12000,
+    clauses=[Clause("few_easy_many_scores", check_large, kind="enum", cases=_large_cases, quick_shards=2, shards=4,
+                    min_nontrivial=2, doc="1-5 easy samples next to 1.5e5-1e6 scored samples"),
+             Clause("virtual_vs_materialised", check, strategy=lambda tier: _cases(9 if tier == "quick" else 25), quick=300, thorough=12000,
                     quick_shards=4, min_nontrivial=150, doc="differential: virtual vs materialised")],
 )
 
